@@ -37,7 +37,7 @@ static char const* type_name(aux::packet::type_t t)
 	}
 }
 
-void describe_packet(char const* tag, std::string const& name, aux::packet const& p);
+void describe_packet(char const* tag, std::string const& name, aux::packet const& p, char const* suffix = "");
 
 static std::string ep_str(ip::udp::endpoint const& ep)
 {
@@ -46,15 +46,15 @@ static std::string ep_str(ip::udp::endpoint const& ep)
 	return a + ":" + std::to_string(ep.port());
 }
 
-void describe_packet(char const* tag, std::string const& name, aux::packet const& p)
+void describe_packet(char const* tag, std::string const& name, aux::packet const& p, char const* suffix)
 {
 	std::string pl = p.buffer.size() <= 16 ? hex(p.buffer.data(), p.buffer.size())
 		: hex(p.buffer.data(), 8) + ".." + hex(p.buffer.data() + p.buffer.size() - 8, 8);
-	emit("%s %s t=%lld type=%s seq=%llu len=%zu ovh=%d from=%s ec=%s bc=%u drop=%d hops=%d pl=%s"
+	emit("%s %s t=%lld type=%s seq=%llu len=%zu ovh=%d from=%s ec=%s bc=%u drop=%d hops=%d pl=%s%s"
 		, tag, name.c_str(), (long long)now_ns(), type_name(p.type)
 		, (unsigned long long)p.seq_nr, p.buffer.size(), p.overhead
 		, ep_str(p.from).c_str(), ec_name(p.ec), unsigned(p.byte_counter)
-		, p.drop_fun ? 1 : 0, int(p.hops.empty() ? 0 : 1), pl.c_str());
+		, p.drop_fun ? 1 : 0, int(p.hops.empty() ? 0 : 1), pl.c_str(), suffix);
 }
 
 void probe_sink::incoming_packet(aux::packet p)
@@ -80,6 +80,41 @@ void dropper_sink::incoming_packet(aux::packet p)
 		}
 	}
 	forward_packet(std::move(p));
+}
+
+void delayer_sink::incoming_packet(aux::packet p)
+{
+	if (p.ok_to_drop())
+	{
+		int const ord = m_seen++;
+		auto const it = m_delays.find(ord);
+		if (it != m_delays.end())
+		{
+			std::string const sfx = " hold=" + std::to_string((long long)it->second);
+			describe_packet("Y", m_name, p, sfx.c_str());
+			long const id = m_next_id++;
+			m_held.emplace_back(id, std::move(p), m_ios);
+			held& h = m_held.back();
+			h.timer.expires_after(ns(it->second));
+			h.timer.async_wait([this, id](boost::system::error_code const& ec) { release(id, ec); });
+			return;
+		}
+	}
+	forward_packet(std::move(p));
+}
+
+// the hold timer of packet `id` completed. A cancelled wait (the catch-all of simulation::run()
+// cancels every timer) discards the packet; after clear() the entry is gone and nothing happens
+void delayer_sink::release(long id, boost::system::error_code const& ec)
+{
+	for (auto it = m_held.begin(); it != m_held.end(); ++it)
+	{
+		if (it->id != id) continue;
+		aux::packet p = std::move(it->pkt);
+		m_held.erase(it);
+		if (!ec) forward_packet(std::move(p));
+		return;
+	}
 }
 
 static aux::packet::type_t type_of(std::string const& s)
@@ -155,6 +190,7 @@ void HConfig::build(simulation& s)
 		// hop <name> nat ext=<ip>
 		// hop <name> probe
 		// hop <name> dropper drop=<i,j,k>
+		// hop <name> delayer delay=<i>:<ns>,<j>:<ns>
 		std::string const& name = d[1];
 		std::string const& kind = d[2];
 		if (kind == "queue")
@@ -184,6 +220,17 @@ void HConfig::build(simulation& s)
 			}
 			hops[name] = std::make_shared<dropper_sink>(m_w, name, which);
 		}
+		else if (kind == "delayer")
+		{
+			std::map<int, std::int64_t> delays;
+			for (auto const& e : split_commas(kv(d, "delay", "")))
+			{
+				std::size_t c = e.find(':');
+				if (c == std::string::npos) continue;
+				delays[std::atoi(e.substr(0, c).c_str())] = std::atoll(e.c_str() + c + 1);
+			}
+			hops[name] = std::make_shared<delayer_sink>(m_w, s.get_io_context(), name, delays);
+		}
 		else if (kind == "hole")
 		{
 			hops[name] = std::make_shared<hole_sink>();
@@ -199,6 +246,11 @@ void HConfig::build(simulation& s)
 
 void HConfig::clear()
 {
+	// called by ~simulation() while its internal io_context is still alive: the hold timers are
+	// cancelled here (their completions are posted and never run), and the packets held - whose
+	// routes may refer back to the hops - are released
+	for (auto& h : hops)
+		if (auto* y = dynamic_cast<delayer_sink*>(h.second.get())) y->clear();
 	hops.clear();
 }
 
